@@ -113,34 +113,39 @@ def check_fromitp_transforms(case):
     from .c01_extra import M_ITP
     viols, evals, keys = [], 0, []
     ff_text = M_ITP + F.render_block_itp("A", F.BLOCKS["A"]) + F.render_block_itp("B", F.BLOCKS["B"])
-    for seq in (["M"], ["M", "A"], ["A", "M"], ["M", "M"], ["M", "A", "M"], ["A", "M", "M"], ["M", "B", "M", "A"]):
+    specs = [(seq, None) for seq in (["M"], ["M", "A"], ["A", "M"], ["M", "M"], ["M", "A", "M"], ["A", "M", "M"], ["M", "B", "M", "A"])]
+    # residue graphs with cycles: the fragment can be reached around the ring as well as through its own edge
+    specs += [(["M", "A"], [[0, 1], [1, 2], [0, 2]]), (["A", "M"], [[0, 1], [1, 2], [0, 2]]), (["M", "M"], [[0, 1], [1, 2], [2, 3], [0, 3]]),
+              (["A", "M", "B"], [[0, 1], [1, 2], [2, 3], [0, 3]]), (["M", "A", "B"], [[0, 1], [1, 2], [0, 2], [2, 3]])]
+    for seq, edges in specs:
         residues = []
         for tok in seq:
             residues += [("MA", True), ("MB", True)] if tok == "M" else [(tok, False)]
         n = len(residues)
-        rg = dict(n=n, edges=[[i, i + 1] for i in range(n - 1)], resids=[1 + i for i in range(n)], resnames=[r[0] for r in residues],
+        rg = dict(n=n, edges=edges or [[i, i + 1] for i in range(n - 1)], resids=[1 + i for i in range(n)], resnames=[r[0] for r in residues],
                   node_attrs={str(i): {"from_itp": "M"} for i, r in enumerate(residues) if r[1]})
+        ne = len(rg["edges"])
         base = run_graph(H.parse_ff([("itp", ff_text)]), H.build_resgraph(rg))
         if base and base[0] == "EXC":
-            viols.append(dict(assertion="independent-of-insertion-order", tags=["from_itp"], message=f"sequence {seq}: base input raises {base[1]}",
-                              case=dict(kind="fromitp1", seq=seq, transform=["base", []]), detail={}))
+            viols.append(dict(assertion="independent-of-insertion-order", tags=["from_itp"], message=f"sequence {seq} edges {rg['edges']}: base input raises {base[1]}",
+                              case=dict(kind="fromitp1", seq=seq, edges=edges, transform=["base", []]), detail={}))
             continue
         perms = list(itertools.permutations(range(n))) if n <= 5 else \
             [tuple(range(n))[::-1]] + [tuple(range(n))[r:] + tuple(range(n))[:r] for r in range(1, n)] + \
             [tuple(range(0, n, 2)) + tuple(range(1, n, 2)), tuple(range(1, n, 2)) + tuple(range(0, n, 2))]
-        for kind in ("insertion-order", "node-keys"):
-            for perm in perms:
-                if list(perm) == list(range(n)):
-                    continue
-                evals += 1
-                g = H.build_resgraph(rg, insertion=list(perm)) if kind == "insertion-order" else H.build_resgraph(rg, key_perm=list(perm))
-                got = run_graph(H.parse_ff([("itp", ff_text)]), g)
-                if got != base and len(viols) < 20:
-                    what = f"exception {got[1]}" if got and got[0] == "EXC" else "output differs"
-                    viols.append(dict(assertion=f"independent-of-{kind}", tags=["from_itp"],
-                                      message=f"sequence {seq} with from_itp fragments: {what} under {kind} {list(perm)}",
-                                      case=dict(kind="fromitp1", seq=seq, transform=[kind, list(perm)]), detail={}))
-                keys.append(json.dumps([seq, kind, list(perm)]))
+        todo = [("insertion-order", list(p)) for p in perms if list(p) != list(range(n))] + [("node-keys", list(p)) for p in perms if list(p) != list(range(n))]
+        if edges:
+            todo += [("edge-order", list(p)) for p in itertools.permutations(range(ne)) if list(p) != list(range(ne))]
+            todo += [("edge-orientation", [i for i in range(ne) if bits >> i & 1]) for bits in range(1, 2 ** ne)]
+        for kind, detail in todo:
+            evals += 1
+            got = run_graph(H.parse_ff([("itp", ff_text)]), apply_transform(rg, (kind, detail)))
+            if got != base and len(viols) < 20:
+                what = f"exception {got[1]}" if got and got[0] == "EXC" else "output differs"
+                viols.append(dict(assertion=f"independent-of-{kind}", tags=["from_itp"] + (["cyclic"] if edges else []),
+                                  message=f"sequence {seq} with from_itp fragments{' (edges %s)' % edges if edges else ''}: {what} under {kind} {detail}",
+                                  case=dict(kind="fromitp1", seq=seq, edges=edges, transform=[kind, detail]), detail={}))
+            keys.append(json.dumps([seq, edges, kind, detail]))
     return viols, evals, keys
 
 
@@ -339,7 +344,7 @@ def run_case(case):
     if case["kind"] in ("fromitp", "fromitp1"):
         v, evals, keys = check_fromitp_transforms(case)
         if case["kind"] == "fromitp1":
-            v = [x for x in v if x["case"]["seq"] == case["seq"] and x["case"]["transform"] == case["transform"]]
+            v = [x for x in v if x["case"]["seq"] == case["seq"] and x["case"].get("edges") == case.get("edges") and x["case"]["transform"] == case["transform"]]
             return dict(evals=1, keys=[], violations=v, stats={})
         return dict(evals=evals, keys=keys, violations=v, stats={"fromitp_transforms": evals}, sample=dict(kind="fromitp", transforms=evals))
     if case["kind"] == "graph1":
